@@ -608,6 +608,12 @@ impl Sweep for Vm {
         self.judge(&format!("A%={}:PRINT -A%", lit(a)), "negate", fit(-x), ctx);
         self.judge(&format!("A%={}:PRINT ABS(A%)", lit(a)), "abs", fit(x.abs()), ctx);
         self.judge(&format!("A%={}:B%=-A%:PRINT B%", lit(a)), "negate", fit(-x), ctx);
+        // every unary minus is a checked negation, also when two of them are nested
+        let twice = if fit(-x) == Exp::Overflow { Exp::Overflow } else { fit(x) };
+        self.judge(&format!("A%={}:PRINT -(-A%)", lit(a)), "negate-twice", twice, ctx);
+        self.judge(&format!("A%={}:PRINT - -A%", lit(a)), "negate-twice", twice, ctx);
+        self.judge(&format!("A%={}:B%=0:PRINT B%+-(-A%)", lit(a)), "negate-twice", twice, ctx);
+        self.judge(&format!("A%={}:PRINT -ABS(A%)", lit(a)), "negate-abs", if fit(x.abs()) == Exp::Overflow { Exp::Overflow } else { fit(-x.abs()) }, ctx);
         for &b in &self.b {
             for op in OPS {
                 let exp = expect(op, a, b);
@@ -686,6 +692,9 @@ impl Sweep for Vm {
                 ("32767.5", 32767.5f64), ("32768", 32768.0), ("-32768.5", -32768.5), ("-32769", -32769.0),
                 ("-32768.9", -32768.9), ("32767.99", 32767.99), ("1E10", 1e10), ("-1D300", -1e300),
                 ("65535", 65535.0), ("65536", 65536.0), ("-0.5", -0.5), ("0.5", 0.5),
+                // Doubles nearer to a limit than Single precision resolves
+                ("-32768.001#", -32768.001), ("32767.9995#", 32767.9995), ("-32768.00001#", -32768.00001), ("32767.99999#", 32767.99999),
+                ("-32767.99999#", -32767.99999), ("32766.99999#", 32766.99999), ("2.99999999#", 2.99999999), ("-0.00000001#", -0.00000001),
             ] {
                 self.judge(&format!("A%={}:PRINT A%", text), "assign-float", conv_expect(v), ctx);
             }
